@@ -54,6 +54,9 @@ type T struct {
 	// string: length bounds in runes; -1 = none
 	MinLen *int `json:"min_len,omitempty"`
 	MaxLen *int `json:"max_len,omitempty"`
+	// Format: a JSON Schema / OpenAPI string format other than date-time (date,
+	// uuid, email...): an annotation cog has no type for; the field stays a string
+	Format string `json:"format,omitempty"`
 
 	// int / float
 	Width   string   `json:"width,omitempty"` // int8..int64, uint8..uint64, float32, float64
